@@ -774,10 +774,10 @@ func RunRPCServer(portrpc int, block bool) {
 		spc.Nchan = 1
 	}
 	if err == nil {
-		err0 := sourceControl.ConfigureSimPulseSource(&spc, &okay)
-		if err0 != nil {
-			panic(err0)
-		}
+		_ = sourceControl.ConfigureSimPulseSource(&spc, &okay)
+		// Don't panic on config errors: a configuration request that was rejected is published and
+		// saved like any other, so the stored values need not be acceptable. Panicking here would
+		// keep Dastard from starting at all until the config file was edited by hand.
 	}
 	var tsc TriangleSourceConfig
 	tsc.SampleRate = 1000.0
@@ -787,10 +787,8 @@ func RunRPCServer(portrpc int, block bool) {
 		tsc.Nchan = 1
 	}
 	if err == nil {
-		err0 := sourceControl.ConfigureTriangleSource(&tsc, &okay)
-		if err0 != nil {
-			panic(err0)
-		}
+		_ = sourceControl.ConfigureTriangleSource(&tsc, &okay)
+		// Don't panic on config errors, for the same reason.
 	}
 	var lsc LanceroSourceConfig
 	err = viper.UnmarshalKey("lancero", &lsc)
